@@ -425,6 +425,8 @@ class Histogram1D(ObjectWithBinning, HistogramBase):
         weights_array = extract_weights(weights, array_mask=array_mask)
         if weights_array is not None:
             self._coerce_dtype(weights_array.dtype)
+        if values_array is not None and values_array.size == 0:
+            return  # An empty batch (or only NaN values): nothing to add
         (frequencies, errors2, underflow, overflow, stats) = calculate_1d_frequencies(
             values_array,
             self._binning,
